@@ -34,7 +34,7 @@ import vlib
 from vlib import fs2b, b2fs, ints
 
 ID = "C09"
-GEN = ["MasksGen", "BnafGen", "Wrappers"]
+GEN = ["MasksGen", "BnafGen", "Wrappers", "NetGen"]
 RULE = ("exhaustive size grid: rank_based_mask on integer rank vectors of length 0..4 with repeated/negative ranks, both eq; "
         "block masks for block shapes (1..3)x(1..3), n_blocks 1..4, k in -2..2; MaskedAutoregressive for dim 1..5, cond_dim None/1/3, "
         "width 1..7, depth 0..3, transformer Affine (2 params) / RationalQuadraticSpline(knots=2) (8 params): every Where.cond mask "
@@ -43,6 +43,11 @@ RULE = ("exhaustive size grid: rank_based_mask on integer rank vectors of length
         "size is degenerate (dim 1, width < dim, depth 0, n_blocks 1, k != 0) or the raw weights differ from the initialisation; "
         "distinct = distinct (object kind, sizes, weight assignment, quantity compared)")
 TRUSTED = [
+    "Coupling / MaskedAutoregressive methods: GENERATED Gen/NetGen.lean (translator tools/py2lean/py2meth.py, typing sheet targets_net.py) over "
+    "the hand-written meanings of the library calls in Model/NetWorld.lean (hstack/concatenate = ++, slices = take/drop, reshape(…, (dim, -1)) = reshapeRows, "
+    "filter_vmap(transformer_constructor) + Vmap(in_axes=if_array(0)) = one scalar bijection per coordinate with SUMMED log-dets, lax.scan(f, init, None, length=n) "
+    "= n-fold iteration, traced x[i] clamps, .at[i].set drops out of range, conditioner / masked MLP = an abstract function) — proved equal to the hand models "
+    "(gen_coupling_eq_model, gen_maf_eq_model) and run against real objects by tools/props/netgen.py",
     "Lean 4.33 kernel; Mathlib v4.33; axioms propext, Classical.choice, Quot.sound",
     "hand-written model lean/Flowjaxv/Model/Masks.lean (masks, rank formulas, masked MLP, Coupling.transform, BNAF transform), "
     "tied by this correspondence: masks entry by entry on the whole grid, forward passes at Float (rtol 1e-9); the mask helpers, rank "
@@ -434,6 +439,9 @@ def corr(c, tier, rng):
     corr_masks(c, tier, rng)
     corr_maf_masks(c, tier, rng)
     corr_behaviour(c, tier, rng)
+    # --- the GENERATED transform / inverse of Coupling / MaskedAutoregressive (Gen/NetGen.lean) against real objects
+    from props import netgen
+    netgen.corr_gen(c, tier, rng, light=(tier == "quick"))
 
 
 # ------------------------------------------------------------------ the property's oracle on the real code only
